@@ -5,6 +5,7 @@ package main
 // of tfgen.go where the generator knows every declaration and every reference it wrote.
 
 import (
+	"time"
 	"context"
 	"fmt"
 	"math/rand"
@@ -291,7 +292,7 @@ func runC10(run *Run, replay string) {
 
 func runC08(run *Run, replay string) {
 	run.Res.Rule = "Terraform-like configurations with collected targets/origins; at every cut point of every written reference (prefix typed so far) CompletionAtPos is asked: every reference candidate must start with the typed text, be the address of a collected declaration (at any nesting depth), be a block-local name (self./count./each.) only inside the block that declares it, and never be the attribute being edited; keyword/bool candidates only for constraints that admit them; accepting a candidate whose declaration fits resolves to that declaration; distinct non-trivial = distinct (configuration, cut point) with at least one reference candidate"
-	n := 60
+	n := 48
 	if run.Thorough {
 		n = 1200
 	}
@@ -300,7 +301,9 @@ func runC08(run *Run, replay string) {
 	crossFileFocusCases(run)
 	operandSymmetryOracle(run, rand.New(rand.NewSource(subSeed(run.Res.Seed, 616161))), n*2)
 	funcCandidateCases(run, rand.New(rand.NewSource(subSeed(run.Res.Seed, 717171))), 1+n/12)
+	t0 := time.Now()
 	valueCandsCases(run)
+	run.Res.Distribution["valuecands_ms"] = int(time.Since(t0).Milliseconds())
 	for i := 0; i < n; i++ {
 		r := rand.New(rand.NewSource(subSeed(run.Res.Seed, i)))
 		sc, cfg := tfScenario(r)
